@@ -365,6 +365,27 @@ func canonicalise(info *types.Info, f *ast.File) {
 		tv, ok := info.Types[e]
 		return ok && (tv.Value != nil || tv.IsNil())
 	}
+	// `if a { if b { X } }` (no else, no init on either) → `if a && b { X }`: the graph does not
+	// model short-circuit evaluation, so the two are the same to every rule
+	ast.Inspect(f, func(n ast.Node) bool {
+		outer, ok := n.(*ast.IfStmt)
+		if !ok {
+			return true
+		}
+		for outer.Else == nil && len(outer.Body.List) == 1 {
+			inner, isIf := outer.Body.List[0].(*ast.IfStmt)
+			if !isIf || inner.Init != nil || inner.Else != nil {
+				break
+			}
+			and := &ast.BinaryExpr{X: outer.Cond, OpPos: outer.Cond.End(), Op: token.LAND, Y: inner.Cond}
+			if tv, okT := info.Types[outer.Cond]; okT {
+				info.Types[and] = types.TypeAndValue{Type: tv.Type}
+			}
+			outer.Cond = and
+			outer.Body = inner.Body
+		}
+		return true
+	})
 	// `x += 1` / `x -= 1` on an integer → `x++` / `x--`
 	astutil.Apply(f, func(cur *astutil.Cursor) bool {
 		as, ok := cur.Node().(*ast.AssignStmt)
